@@ -33,7 +33,8 @@ claim(
     "through float()/int() (numpy integer/float32 scalars are not JSON-serialisable), and Bag's reader normalising numeric "
     "keys with the same function as the filling path, a child's name suppression being a constant that matches what the reader "
     "passes as nameFromParent, integer dict keys being parsed with int(text) directly (never through float), and ed() putting no range "
-    "check on an accumulator other than entries (every state toJson can emit reloads). "
+    "check on an accumulator other than entries (every state toJson can emit reloads), and every `getattr(child, name, default)` probe of a "
+    "writer being answered by each class that can still be the child at that point (Select's __getattr__ raises KeyError for unknown names). "
     "Bit-exact float text and equality of reloaded "
     "content for arbitrary states are NOT decided.",
     "Assumes maybeAdd adds exactly the non-None keyword pairs and hasKeys is the closed-set test its body states (its "
